@@ -521,6 +521,8 @@ fn gen_c13(sink: &mut Sink, tier: &str, seed: u64) {
             }
         }
     }}; }
+    // ... and every registered built-in instantiation (paths, addresses, times, atomics, collections, tuples of every arity, ...)
+    crate::types::exercise_all(&mut rng, sink, if tier == "thorough" { 12 } else { 2 }, "sink");
     let nvals = if tier == "thorough" { 300 } else { 40 };
     for i in 0..nvals {
         let n = rng.gen_range(0..5usize);
